@@ -9,7 +9,8 @@ One term has many spellings as a template; `Realiser` picks among them at random
           `caller()`, a macro imported from another template (`import … as`, `from … import`), `super()` at top level
   bind  — `{% set x = e %}`, `{% with %}`, a one-element `{% for %}`, a macro parameter
   seq   — juxtaposition or `{% include %}` of the second part
-  emit  — `{{ e }}`, optionally through an identity spelling (`|string`, a true conditional expression)
+  emit  — `{{ e }}`, optionally through an identity spelling (`|string`, a true conditional expression); an operation applied to a
+          buffered body is also spelled `{% filter f(args) %}…{% endfilter %}`, and bound through `{% set x | f(args) %}…{% endset %}`
 """
 from __future__ import annotations
 
@@ -91,8 +92,28 @@ class TermGen:
         s = self.rng.choice(self.lits)
         return ("truncate", e(), ("lit", s), len(s) + self.rng.randrange(0, 6))
 
+    def op_blk(self, depth, scope_len):
+        """an operation whose receiver is a buffered body: what `{% filter f(args) %}BODY{% endfilter %}` applies f to"""
+        body = ("blk", self.node(max(depth - 1, 0), scope_len))
+        e = lambda: self.expr(max(depth - 1, 0), scope_len)  # noqa: E731
+        k = self.rng.choice(["esc", "force", "replace", "indent", "truncate", "mod"])
+        if k in ("esc", "force"):
+            return (k, body)
+        if k == "replace":
+            return ("replace", body, self.expr(0, scope_len), e())
+        if k == "indent":
+            return ("indent", body, e())
+        if k == "mod":
+            return ("mod", ("blk", ("text", self.rng.choice(self.fmt_texts))), e())
+        s = self.rng.choice(self.lits)
+        return ("truncate", body, ("lit", s), len(s) + self.rng.randrange(0, 6))
+
     def node(self, depth, scope_len):
         r = self.rng.random()
+        if self.ops and depth > 0 and r < 0.16:
+            if r < 0.08:
+                return ("emit", self.op_blk(depth, scope_len))
+            return ("bind", ("esc", self.op_blk(depth, scope_len)), self.node(depth - 1, scope_len + 1))
         if depth <= 0:
             return ("text", self.rng.choice(self.texts)) if r < 0.4 else ("emit", self.expr(0, scope_len))
         if r < 0.12:
@@ -211,6 +232,18 @@ class Realiser:
             return "{% import '" + lib + self.suffix + "' as " + lib + " %}", f"{lib}.{m}({params})"
         return "{% from '" + lib + self.suffix + "' import " + m + " %}", f"{m}({params})"
 
+    def filter_call(self, t, scope):
+        """for an operation whose receiver is a buffered body: (statements before, filter call text, body term), else None"""
+        k = t[0]
+        if k not in ("esc", "force", "replace", "indent", "truncate", "mod") or t[1][0] != "blk":
+            return None
+        parts = [self.expr(x, scope) for x in t[2:] if isinstance(x, tuple)]
+        pre = "".join(p for p, _ in parts)
+        c = [x for _, x in parts]
+        call = {"esc": "e", "force": "forceescape", "replace": lambda: f"replace({c[0]}, {c[1]})", "indent": lambda: f"indent({c[0]}, first=true)",
+                "truncate": lambda: f"truncate({t[3]}, true, {c[0]}, 0)", "mod": lambda: f"format({c[0]})"}[k]
+        return pre, (call if isinstance(call, str) else call()), t[1][1]
+
     # -- bodies ---------------------------------------------------------------------------------------------------------------
     def node(self, t, scope):
         k = t[0]
@@ -219,6 +252,14 @@ class Realiser:
         if k == "empty":
             return ""
         if k == "emit":
+            fc = self.filter_call(t[1], scope)
+            if fc is not None and self.rng.random() < 0.7:
+                # {% filter f(args) %}BODY{% endfilter %} writes escape(f(Markup(concat(buffer)), args))
+                self.use("emit:filter-block")
+                return fc[0] + "{% filter " + fc[1] + " %}" + self.node(fc[2], scope) + "{% endfilter %}"
+            if t[1][0] == "blk" and self.rng.random() < 0.12:
+                self.use("emit:filter-block-string")
+                return "{% filter string %}" + self.node(t[1][1], scope) + "{% endfilter %}"
             pre, c = self.expr(t[1], scope)
             r = self.rng.random()
             if r < 0.1:
@@ -237,9 +278,17 @@ class Realiser:
                 return a + "{% include '" + inc + "' %}"
             return a + self.node(t[2], scope)
         if k == "bind":
-            pre, c = self.expr(t[1], scope)
             x = self.fresh("x")
             inner = [x] + scope
+            fc = self.filter_call(t[1][1], scope) if t[1][0] == "esc" else None
+            if fc is not None and self.rng.random() < 0.7:
+                # {% set x | f(args) %}BODY{% endset %} binds escape(f(Markup(concat(buffer)), args))
+                self.use("bind:filtered-set-block")
+                return fc[0] + "{% set " + x + " | " + fc[1] + " %}" + self.node(fc[2], scope) + "{% endset %}" + self.node(t[2], inner)
+            if t[1][0] == "blk" and self.rng.random() < 0.12:
+                self.use("bind:filtered-set-block-string")
+                return "{% set " + x + " | string %}" + self.node(t[1][1], scope) + "{% endset %}" + self.node(t[2], inner)
+            pre, c = self.expr(t[1], scope)
             way = self.rng.choice(["set", "with", "for", "macro"])
             self.use("bind:" + way)
             if way == "set":
